@@ -82,16 +82,12 @@ func RunC13(ch *core.Chooser, env *Env) *Outcome {
 		maxLines, maxOps = 150, 400
 	}
 	lists := drawLists(ch, hosts, workload.AllKinds, 3, 1, maxLines, 0)
-	// some lists sit behind a stub that can be told to fail a few retrievals:
-	// a read error in the PAST is part of the history too, and once the list
-	// reads again answers must be what a fresh engine gives
+	// (No read failures here: C13 quantifies over query histories on readable
+	// lists.  A variant of this check that made "the next N retrievals fail"
+	// a history step flagged a correct memo that keeps repeating an answer it
+	// computed while a list was failing - behaviour no listed property
+	// forbids - so it was removed again; see DESIGN.md 10.4.)
 	var stubbed []int
-	for i := range lists {
-		if ch.Intn("list.faulty", 4) == 3 {
-			lists[i].Faulty = true
-			stubbed = append(stubbed, i)
-		}
-	}
 
 	// ---- plan
 	allLines := planLines(lists)
